@@ -11,3 +11,32 @@ check('C03', 'E1', 'model_checking',
       'engine.io sockets, bidict trusted; small-scope (<=3 clients, 2 '
       'namespaces, 2 rooms); canonical state identifies clients by slot.',
       'DESIGN.md 6/C03')
+
+check('C01', 'E4', 'exploration',
+      'bounded-exhaustive input enumeration against a spec-derived codec',
+      'Every packet of a stated finite grammar (7 types x namespaces x ids x '
+      'all JSON+bytes trees up to a node budget over a wire-colliding leaf '
+      'alphabet) is encoded by the real Packet class and compared '
+      'frame-for-frame with an independent v5 codec, decoded again with '
+      'every attachment hand-back, and every string up to length L over the '
+      'syntax alphabet is decoded by both codecs. Exhaustive over the '
+      'grammar; no sampling.',
+      'reference codec (mc/refcodec.py) trusted; bare top-level numeric '
+      'payloads and explicitly constructed BINARY_* packets with bytes are '
+      'outside the domain (counted).',
+      'DESIGN.md 6/C01')
+
+check('C04', 'E1+E2', 'model_checking',
+      'explicit-state BFS over connection histories + exhaustive asyncio '
+      'schedule exploration (virtual loop) of concurrent terminations',
+      'All histories of CONNECT (served/unserved/duplicate namespace, 3 auth '
+      'payloads, 6 connect-handler outcomes), DISCONNECT, transport loss and '
+      'server.disconnect for 2 transports x 3 namespaces are explored to '
+      'closure in 20 server configurations against a connection ledger; for '
+      'AsyncServer every interleaving of 1-2 (quick) / 3 (thorough) '
+      'concurrent terminating causes at handler entry/exit and after every '
+      'send is executed on a virtual event loop.',
+      'engine.io trusted; sends are treated as suspension points (a superset '
+      'of what the unbounded asyncio queue does today); retired-sid monitor '
+      'capped.',
+      'DESIGN.md 6/C04')
